@@ -12,6 +12,7 @@ pub mod c16;
 pub mod c17;
 pub mod c18;
 pub mod c19;
+pub mod c20;
 
 #[derive(Clone, Copy, PartialEq, Eq, Debug)]
 pub enum Tier {
@@ -59,6 +60,7 @@ pub fn run(prop: &str, tier: Tier, seed: u64, out: &str) -> bool {
         "C17" => c17::run(tier, seed, out),
         "C18" => c18::run(tier, seed, out),
         "C19" => c19::run(tier, seed, out),
+        "C20" => c20::run(tier, seed, out),
         _ => return false,
     }
     true
